@@ -95,6 +95,11 @@ CHECKS = {
                      'interprets the batch markers like courier_utils.async_iterate and (thorough) a shutdown thread. z3 decides over all interleavings and a symbolic generator failure '
                      'position: no request stays blocked; the concatenated batches are the generator elements in order, each once, then exactly one end marker with the return value; a '
                      'failure arrives after the elements produced before it (known finding: partial batch dropped). One generator life-cycle; re-initialisation is outside.'),
+    'C20': dict(engine='pybmc', level='model_checking', design_ref='DESIGN.md#c20', note=BM_NOTE, technique=BM_TECH + '; crosshair for the sequential liveness-table part',
+                text='(a) Worker.acquire_by/release/is_available/is_locked and WorkerPool._acquire_all/release_all are compiled from source; two pools (threads) share 1-2 workers; z3 '
+                     'decides over all interleavings: a pool that was told it owns a worker keeps is_locked(pool) until it releases, nobody releases an unlocked lock, no worker stays '
+                     'locked after the pool-level operations returned. Termination of blocking acquisition is outside the claim (deadlock observed, DESIGN.md). (b) sequential '
+                     'register/refresh/unregister/heartbeat histories of the registry and the liveness predicate with CrossHair.'),
 }
 NA = {}
 PENDING = 'check not built yet (see DESIGN.md build order)'
